@@ -274,6 +274,29 @@ func EncodeSW(b mp4.Box) (out []byte, outcome string, pmsg string) {
 	return
 }
 
+// EncodeSWRoomy runs b.EncodeSW on a FixedSliceWriter of capacity b.Size()+extra; n = bytes written.
+func EncodeSWRoomy(b mp4.Box, extra int) (out []byte, outcome string, n int) {
+	pmsg := hx.Try(func() {
+		sz := b.Size()
+		if sz > 1<<28 {
+			outcome = "err"
+			return
+		}
+		sw := bits.NewFixedSliceWriter(int(sz) + extra)
+		if err := b.EncodeSW(sw); err != nil {
+			outcome = "err"
+			return
+		}
+		outcome = "ok"
+		n = sw.Offset()
+		out = append([]byte{}, sw.Bytes()...)
+	})
+	if pmsg != "" {
+		return nil, "panic", 0
+	}
+	return
+}
+
 // SafeSize calls b.Size() catching panics.
 func SafeSize(b mp4.Box) (sz uint64, pmsg string) {
 	pmsg = hx.Try(func() { sz = b.Size() })
@@ -424,6 +447,18 @@ func SizeAtEveryNode(b mp4.Box, path string, witness string, fails *[]Fail, eval
 		out3, oc3, _ := EncodeW(b)
 		if oc3 != "ok" || !bytes.Equal(out, out3) {
 			*fails = append(*fails, Fail{b.Type(), "encode-twice-differs", witness, path + ": second Encode gives different bytes"})
+		}
+	}
+	// EncodeSW into a writer with spare room (independently of whether the exactly-sized Encode succeeded): an
+	// encoder that writes more than Size() is then not stopped by the writer's capacity; "success" must still mean
+	// exactly Size() bytes, and the same bytes as Encode when that succeeded
+	if out4, oc4, n4 := EncodeSWRoomy(b, 64); oc4 == "ok" {
+		szNow, _ := SafeSize(b)
+		if uint64(n4) != szNow {
+			*fails = append(*fails, Fail{b.Type(), "encodesw-roomy-vs-size", witness,
+				fmt.Sprintf("%s: EncodeSW into a writer of Size()+64 bytes reports success and wrote %d bytes, Size() = %d", path, n4, szNow)})
+		} else if oc == "ok" && !bytes.Equal(out, out4) {
+			*fails = append(*fails, Fail{b.Type(), "encodesw-roomy-vs-encode", witness, path + ": EncodeSW into a roomy writer gives other bytes than Encode"})
 		}
 	}
 	if c, ok := b.(childrener); ok {
